@@ -420,6 +420,17 @@ func c19Sites() []c19Site {
 		{"second-loop-same-statement-fails-at-once", func(f c19Fail) []string {
 			return withPre("pv = "+f.P, "gen = (p, q) -> {\n  if q == 1 {\n    "+f.Src+"\n  }\n  yield 1\n}", "{\n  for b <- gen(pv, 0) t = b\n  for b <- gen(pv, 1) t = b\n}")
 		}},
+		{"after-a-refused-oversized-statement", func(f c19Fail) []string {
+			// a statement too large for the instruction format is refused between the definitions and the failing call
+			big := make([]string, 33000)
+			for i := range big {
+				big[i] = "1"
+			}
+			return withPre("fa = (p, q) -> "+f.Src, "fb = (p) -> fa(p, 2) + 1", "huge = ["+strings.Join(big, ", ")+"] + [u]", "fb("+f.P+")")
+		}},
+		{"generator-loop-after-a-zip-in-the-same-statement", func(f c19Fail) []string {
+			return withPre("pv = "+f.P, "gen = (p, q) -> {\n  yield 1\n  "+f.Src+"\n  yield 2\n}", "{\n  for a, b <- fromto(0, 2), fromto(0, 3) t = a + b\n  for i <- gen(pv, 1) t = i\n}")
+		}},
 		{"body-of-loop-over-generator", func(f c19Fail) []string {
 			return withPre("lit = () -> {\n  yield 1\n  yield 2\n}", "fa = (p, q) -> for i <- lit() if i == 2 {\n  "+f.Src+"\n}", "fa("+f.P+", 4)")
 		}},
